@@ -14,7 +14,13 @@ import (
 	"time"
 )
 
-const verifRoot = "/verif"
+// verifRoot is the directory the check driver runs in (normally /verif).
+var verifRoot = func() string {
+	if r := os.Getenv("VERIF_ROOT"); r != "" {
+		return r
+	}
+	return "/verif"
+}()
 
 // KnownFinding is an entry of /verif/known_findings.json (never written at run time).
 type KnownFinding struct {
